@@ -16,6 +16,7 @@ import (
 	"reflect"
 	"runtime/debug"
 	"runtime/pprof"
+	"sort"
 	"strings"
 	"sync"
 	"time"
@@ -79,6 +80,9 @@ func runHistory(c *config, hist []op, all bool, log func(string)) (out stepOutco
 			return
 		}
 		r.update(o, res, s.finder(), s.devOfFrame)
+		if c.Buddy && !r.tainted {
+			r.tainted = s.staleMergeBit(s.snapshot(), r)
+		}
 	}
 	last := hist[n-1]
 	s.step(r, last, &out)
@@ -95,7 +99,14 @@ func runHistory(c *config, hist []op, all bool, log func(string)) (out stepOutco
 		// differential: allocate + free is a detour back to the same abstract state
 		post := s.snapshot()
 		if d := abstractDiff(pre, post, c); d != "" {
-			out.viols = append(out.viols, violation{sig: "detour/alloc-free/" + d,
+			pre := ""
+			if c.Buddy {
+				pre = "buddy/"
+				if r.tainted {
+					pre = "buddy/stale-merge-bit/"
+				}
+			}
+			out.viols = append(out.viols, violation{sig: pre + "detour/alloc-free/" + d,
 				msg: fmt.Sprintf("after %s; %s the state differs from the state before the two calls: %s", hist[n-2], last, d)})
 			out.end = endViolation
 		}
@@ -118,12 +129,29 @@ func abstractDiff(a, b *snapshot, c *config) string {
 			return "free-frame-set"
 		}
 		da, db := &a.alloc.Devices[i], &b.alloc.Devices[i]
-		if c.Buddy && !(reflect.DeepEqual(da.BuddyFreeLists, db.BuddyFreeLists) && reflect.DeepEqual(da.BuddySplit, db.BuddySplit) &&
+		if c.Buddy && !(sameLevels(da.BuddyFreeLists, db.BuddyFreeLists) && reflect.DeepEqual(da.BuddySplit, db.BuddySplit) &&
 			reflect.DeepEqual(da.BuddyMerge, db.BuddyMerge) && reflect.DeepEqual(da.BuddyBlocks, db.BuddyBlocks)) {
 			return "buddy-structure"
 		}
 	}
 	return ""
+}
+
+// sameLevels compares buddy free lists level by level as SETS: allocation
+// takes the front and release appends, so a detour may rotate a level.
+func sameLevels(a, b [][]uint64) bool {
+	if len(a) != len(b) {
+		return false
+	}
+	for i := range a {
+		x, y := append([]uint64(nil), a[i]...), append([]uint64(nil), b[i]...)
+		sort.Slice(x, func(i, j int) bool { return x[i] < x[j] })
+		sort.Slice(y, func(i, j int) bool { return y[i] < y[j] })
+		if !reflect.DeepEqual(x, y) {
+			return false
+		}
+	}
+	return true
 }
 
 type node struct {
@@ -143,6 +171,8 @@ type totals struct {
 	states, transitions, terminal, fragment int64
 	perDepth                                 []int64
 }
+
+var observations = map[string]string{}
 
 func search(r *harness.Run, c *config) (tot totals, complete bool) {
 	driver.VerifSetBuddyAllocator(c.Buddy)
@@ -195,6 +225,13 @@ func search(r *harness.Run, c *config) (tot totals, complete bool) {
 					continue
 				}
 				for _, v := range t.viols {
+					if c.Informational {
+						if _, ok := observations[v.sig]; !ok {
+							observations[v.sig] = v.msg + " -- history: " + histString(h)
+							fmt.Printf("OBSERVATION outside the valid alphabet (not a violation): %s\n  %s\n  history: %s\n", v.sig, v.msg, histString(h))
+						}
+						continue
+					}
 					r.Report(v.sig, v.msg+"\nhistory: "+histString(h), replayCase{Config: c.Name, History: h, Text: histString(h)})
 				}
 				if t.end == endBuddyFragmentation {
@@ -287,6 +324,7 @@ func main() {
 	r.Cov["exhaustive"] = exhaustive
 	r.Cov["configs"] = per
 	r.Cov["buddy_fragmentation_refusals"] = fragment
+	r.Cov["observations_outside_valid_alphabet"] = observations
 	r.Cov["rule"] = "breadth-first search over all histories of valid driver API calls up to the depth of each configuration; every transition is one replay of the history on a fresh real driver plus one call; states are deduplicated by a canonical fingerprint of allocator, page table, contexts and reference model; invariants are evaluated in every state and over every transition"
 	r.Assume = []string{
 		"only valid calls are issued: within the natural capacity of the target device (device pages minus pages of live buffers resident there), Free/Remap/Distribute/migration only on live buffers through the owning context, page-aligned ranges inside one buffer, Remap/Distribute/migration targets are the CPU or actual GPUs",
